@@ -11,14 +11,17 @@ prop("C06",
                 "subnet that contains the node's address'), partial_holder_offered_iff (the same exactness for default-policy pods "
                 "holding some of their ranges), fact_* / model_* (regenerated source shapes = the model's leaf functions). "
                 "Counter theorems with concrete witnesses: bound_ip_routable_counter (hypothesis AtMostOneWithoutRanges is "
-                "necessary as the code stands; reproduces on the real code = known finding), filter_then_bind_overlap_counter "
+                "necessary as the code stands; reproduces on the real code = fixed since: ByKeyAndIPRanges(key,nil) sorted), filter_then_bind_overlap_counter "
                 "(overlapping ranges = the documented TODO of ipam_crd.go, outside the property's quantifier), d7_reseed_counter "
                 "(pre-fix seeding of NodeSubnetsByIPRanges = fixed defect D7), alloc_gives_up_counter, owned_seed_index_counter, "
                 "ipinfo_first_pool_counter (what each pinned fact protects). Seven non-vacuity examples on a topology with two pools "
                 "sharing a pod subnet with adjacent ranges, node subnets shared by pools and a /32 node subnet.",
-     level_note="bound_ip_routable and holder_offered_only_routable carry the extra hypothesis AtMostOneWithoutRanges (a pod that "
-                "requests no ranges holds at most one address); without it the statement is false on the model AND on the real "
-                "code (known findings *:no-ranges-multi-owner). The state hypotheses (Coherent = C05 / the C04 invariant's first "
+     level_note="bound_ip_routable and holder_offered_only_routable carry the extra hypothesis AtMostOneWithoutRanges because the "
+                "plugin model admits any address of the key as ipInfos[0]/ipInfos[:1]; bound_ip_is_lowest_held, "
+                "bound_ip_routable_sorted and holder_offered_only_routable_sorted drop it under the admissibility refinement "
+                "choiceIsMin justified by the regenerated fact byKeyNoRangesSorted (ByKeyAndIPRanges(key,nil) sorts ascending); the "
+                "harness reports any observed first-address choice that is not the key's lowest address as a correspondence "
+                "disagreement and a bind that writes another address as bound-ip-not-lowest-held. The state hypotheses (Coherent = C05 / the C04 invariant's first "
                 "conjunct; CacheOK = the node-subnet cache holds nodeSubnet(node)) are assumed for the starting state, checked by "
                 "the harness on every generated state through the correspondence. 'Nothing else changes' = fault arguments 0, lister "
                 "pod = API pod, scheduler UID = pod UID. Scalable custom resources (immutable policy for TApp) and Preempt are not "
